@@ -1,5 +1,7 @@
 """C07 (round 2, tag c07c): the caller side of the optimisation glue in biogeme.py / negative_likelihood.py."""
 from pyvc.contract import contract, field_type
+import contracts.c03_byname  # noqa: F401  (get_bounds_on_beta is proved there (C03): reused at its call site in RawResults.__init__;
+#                                          imported first so that the field types declared below take precedence)
 
 B = 'biogeme.biogeme.BIOGEME.'
 N = 'biogeme.negative_likelihood.NegativeLikelihood.'
@@ -90,3 +92,44 @@ contract(B + 'optimize', 'C07', types={'starting_values': 'np.ndarray | None'},
                                                                  "same(opt_arg(1, 'variable_names'), self.id_manager.free_betas.names)",
                   'parameters_are_the_algorithm_parameters': "same(opt_arg(1, 'parameters'), self.algo_parameters)",
                   'result_is_the_algorithms': 'same(result, opt_result(1))'})
+
+# ---- packaging of the solution and of the final evaluation into the raw results ---------------------------------------------
+R = 'biogeme.results.'
+field_type('RawResults', 'betas', 'list[Any]')
+field_type('BIOGEME', 'database', 'Database')
+field_type('RawResults', 'betaNames', 'list[str]')     # annotated tuple[str] in the source; it is the id manager's list of names
+RAW_REPLAY = '''
+import types
+import numpy as np
+from biogeme.results import RawResults
+from biogeme.function_output import BiogemeFunctionOutput
+names = ['b1', 'b2', 'b3']
+db = types.SimpleNamespace(name='d', get_sample_size=lambda: 5, get_number_of_observations=lambda: 5, typesOfDraws={}, excludedData=0)
+model = types.SimpleNamespace(modelName='m', user_notes='', id_manager=types.SimpleNamespace(free_betas=types.SimpleNamespace(names=names)),
+                              initLogLike=-10.0, nullLogLike=-12.0, get_bounds_on_beta=lambda n: (None, 0.0), database=db, monte_carlo=False,
+                              number_of_draws=0, drawsProcessingTime=None, optimizationMessages={}, convergence=True, number_of_threads=1)
+x = np.array([3.0, -1.0, 2.0]); g = np.array([0.1, 0.2, 0.3]); H = -2.0 * np.eye(3); B = 5.0 * np.eye(3)
+r = RawResults(model, x, BiogemeFunctionOutput(function=-7.5, gradient=g, hessian=H, bhhh=B))
+checks = {'betaValues': r.betaValues is x, 'nparam': r.nparam == 3, 'betaNames': list(r.betaNames) == names, 'logLike': r.logLike == -7.5,
+          'g': r.g is g, 'H': r.H is H, 'bhhh': r.bhhh is B, 'initLogLike': r.initLogLike == -10.0, 'convergence': r.convergence is True,
+          'betas': [(b.name, b.value, b.lb, b.ub) for b in r.betas] == [(n, v, None, 0.0) for n, v in zip(names, [3.0, -1.0, 2.0])]}
+violated = not all(checks.values())
+detail = 'wrong: ' + ', '.join(k for k, v in checks.items() if not v)
+'''
+
+contract(R + 'RawResults.__init__', 'C07', replay=RAW_REPLAY,
+         types={'beta_values': 'list[float]', 'f_g_h_b': 'Any'},
+         requires={'bounds_len': 'len(the_model.id_manager.bounds) == len(the_model.id_manager.free_betas.names)',
+                   'indices_in_range': "forall(lambda x: implies(x in the_model.id_manager.free_betas.indices, "
+                                       "0 <= the_model.id_manager.free_betas.indices[x] < len(the_model.id_manager.free_betas.names)), ty='str')",
+                   'names_indexed': "forall(lambda q: the_model.id_manager.free_betas.names[q] in the_model.id_manager.free_betas.indices, "
+                                    "0, len(the_model.id_manager.free_betas.names))"},
+         check_frame=False,
+         ensures={'estimates_are_the_solution': 'same(self.betaValues, beta_values) and self.nparam == len(beta_values)',
+                  'names_in_id_order': 'same(self.betaNames, the_model.id_manager.free_betas.names)',
+                  'final_log_likelihood': 'same(self.logLike, f_g_h_b.function)',
+                  'gradient': 'same(self.g, f_g_h_b.gradient)',
+                  'hessian': 'same(self.H, f_g_h_b.hessian)',
+                  'bhhh': 'same(self.bhhh, f_g_h_b.bhhh)',
+                  'initial_log_likelihood': 'same(self.initLogLike, the_model.initLogLike)',
+                  'convergence': 'same(self.convergence, the_model.convergence)'})
